@@ -113,6 +113,8 @@ def modesStep (s : St) (o : OpLine) : St × String :=
     match o.nat? "c", o.nats? "ids" with
     | some c, some ids => fin (step s (.restore c (ids.map fun i => { id := i, typ := .regular, size := 0 })))
     | _, _ => bad
+  | "reopen" => fin (step s .reopen)
+  | "settle" => fin (step s .settle)
   | "restart" => match o.nat? "m" with
     | some m => fin (step s (.restart m))
     | none => bad
